@@ -10,9 +10,11 @@ V: KeyLifecycleTrace (TLC) recomputes every partial response s_i = k_i + e (a_i 
    exactly when the equation fails for the other challenge."""
 import json
 import lifecycle_common as lc
+import prod_common
 
 
 def run(chk):
+    prod_common.background(prod_common.run_sign, chk)      # production curves (family ProdProto) overlap with the toy-group part
     if chk.quick:
         jobs = [("q251", ["-q", "251", "-n", "60", "-parties", "4", "-focus", "sign"]),
                 ("q45971", ["-q", "45971", "-n", "60", "-parties", "4", "-focus", "sign"]),
@@ -34,5 +36,7 @@ def run(chk):
 
 def replay(chk, path):
     case = json.load(open(path))["case"]
+    if case.get("a") in ("sign", "keygen", "ot", "vole"):
+        return 1 if prod_common.replay(case, tier=chk.tier) else 0
     print(json.dumps(case.get("failing_line", case))[:3000])
     return 0
